@@ -317,3 +317,7 @@ fn hash_external_account(ec: &ExternalAccount) -> Vec<u8> {
 	msg.extend(ec.identifier.as_bytes());
 	HashFunction::Sha256.hash(&msg)
 }
+
+#[cfg(feature = "breard_r_acmed_verif")]
+#[path = "/verif/probe/account_probe.rs"]
+mod verif;
